@@ -43,3 +43,39 @@ for d in sorted(glob.glob("/tmp/wt/c[0-9][0-9]/_seed")):
         rows.append((sid, "ok", fired))
 for r in rows:
     print(*r)
+
+# ---- benign twins (behaviour-preserving edits used to measure false alarms) -------------------------------------
+TW = os.path.join(OUT, "twins")
+os.makedirs(TW, exist_ok=True)
+trows = []
+for d in sorted(glob.glob("/tmp/wt/c[0-9][0-9]/_twin")):
+    p = os.path.basename(os.path.dirname(d))
+    P = p.upper()
+    md = os.path.join(d, "T.md")
+    if os.path.isfile(md):
+        shutil.copy(md, os.path.join(TW, "%s.md" % P))
+    for k in (1, 2, 3, 4):
+        diff = os.path.join(d, "T%d.diff" % k)
+        if not os.path.isfile(diff):
+            continue
+        shutil.copy(diff, os.path.join(TW, "%s-T%d.diff" % (P, k)))
+        ej = "/tmp/wt/confirm/twin_%sT%d.json" % (p, k)
+        ev = json.load(open(ej)) if os.path.isfile(ej) and os.path.getsize(ej) else {}
+        fired = dict((kk, sorted(set(l.split("rule=")[1].split(" ")[0] for l in v if l.startswith("FINDING")))) for kk, v in ev.get("fired", {}).items())
+        trows.append((P, k, "silent" if ev and not fired and not ev.get("errors") else "NOISY %s %s" % (fired, list(ev.get("errors", {}).keys()))))
+
+# ---- README -----------------------------------------------------------------------------------------------------
+with open(os.path.join(OUT, "README.md"), "w") as fh:
+    fh.write("# Seeded changes\n\n"
+             "`<PID>-A`, `<PID>-B`: property-breaking edits written by independent sub-agents that saw only the property text and a scratch\n"
+             "worktree of /repo (nothing from /verif).  Each directory holds `patch.diff` (apply with `git -C /repo apply`), `demo.py` (exits 0 on\n"
+             "the clean tree, non-zero with the patch) and `meta.json` (what the change breaks and needs to manifest, how it was confirmed, which\n"
+             "rules report it).  `twins/`: behaviour-preserving edits by the same kind of sub-agent, used to measure false alarms (every check must stay\n"
+             "silent on them).  Re-evaluate one with `python3 tools/eval_seed.py seeded/<id>/patch.diff <PID>`.\n\n"
+             "| seed | confirmed | reported by |\n|---|---|---|\n")
+    for r in rows:
+        fh.write("| %s | %s | %s |\n" % (r[0], r[1], "; ".join("%s: %s" % (k, ",".join(v)) for k, v in sorted(r[2].items())) if r[1] == "ok" and isinstance(r[2], dict) else r[2:]))
+    fh.write("\n| twin | all 20 quick checks + target thorough sweep |\n|---|---|\n")
+    for P, k, st in trows:
+        fh.write("| %s-T%d | %s |\n" % (P, k, st))
+print("twins:", len(trows), "noisy:", [(P, k) for P, k, st in trows if st != "silent"])
